@@ -130,6 +130,13 @@ def example_cases():
     return out
 
 
+def multibyte_comments(text):
+    """comments with 2-, 3- and 4-byte characters inside every call / tuple and after every comma, lines kept as they are:
+    columns (characters) and byte offsets differ on every line that has a tracked call"""
+    out = text.replace("(", "(/* \u00e9\u2248 */ ").replace(", ", ", /* \u2713\U0001f600 */ ")
+    return "// \u00fcber: 2^32 \u2248 4\u00b710^9\n" + out
+
+
 def cases(tier, seed):
     rng = random.Random(seed)
     out = []
@@ -155,6 +162,14 @@ def cases(tier, seed):
         out.append(E.Case("dbg/" + name, prog, check_markers=True, validate=True, tags={"family": "debug-specific"}))
         out.append(E.Case("dbg/" + name + "/one-line", prog, text=one_line(program_text(prog)), check_markers=True, validate=True,
                           tags={"family": "debug-specific", "layout": "single line"}))
+        out.append(E.Case("dbg/" + name + "/multibyte-comments", prog, text=multibyte_comments(program_text(prog)), check_markers=True, validate=False,
+                          tags={"family": "debug-specific", "layout": "non-ASCII comments inside calls"}))
+        out.append(E.Case("dbg/" + name + "/one-line+multibyte-comments", prog, text=multibyte_comments(one_line(program_text(prog))), check_markers=True, validate=False,
+                          tags={"family": "debug-specific", "layout": "single line, non-ASCII comments inside calls"}))
+    for i, c in enumerate(borrowed[: (60 if tier == "quick" else 400)]):
+        if c.text is None and c.prog is not None and not c.wit_fixed:
+            out.append(E.Case(c.cid + "/multibyte-comments", c.prog, args=c.args, interpret=c.interpret, text=multibyte_comments(program_text(c.prog)),
+                              check_markers=True, validate=False, tags=dict(c.tags, layout="non-ASCII comments inside calls")))
     for name, prog in value_programs(tier):
         out.append(E.Case("dbg/" + name, prog, check_markers=True, validate=False, debug_modes=(False, True), tags={"family": "marker-values"}))
     out += example_cases()
